@@ -25,7 +25,10 @@ EXPLANATION = ("Proved in Lean for every expression tree of any depth over the e
                "(binary levels, ?:, assignment, comma, parentheses; AST_MAX_DEPTH as explicit hypothesis). Level 'other': prefix/postfix "
                "operators, casts, calls, subscripts, member access are modelled and correspondence-checked, theorems cover them only "
                "partially; new/delete, lambdas, _Generic, initializer lists, templates, keywords are outside the model.")
-THEOREMS = []     # filled below
+THEOREMS = ["Cppcheck.AstLadder.extracted_table_is_C", "Cppcheck.AstLadder.extracted_ladder_wf",
+            "Cppcheck.AstLadder.createAst_follows_grammar", "Cppcheck.AstLadder.createAst_follows_grammar_extracted",
+            "Cppcheck.AstLadder.ladder_roundtrip", "Cppcheck.AstLadder.ladder_respects_parens",
+            "Cppcheck.AstLadder.ternary_middle_as_parenthesised", "Cppcheck.AstLadder.assign_right_assoc"]
 MODULES = ["Cppcheck.Props.C07"]
 
 
@@ -616,6 +619,9 @@ def classify_dev(toks):
                         return "skipdecl-in-parentheses"
                     break
                 j += 1
+    for i in range(n - 1):
+        if strs[i] == "!" and "S" in fl[i + 1]:
+            return "not-cast-parentheses-removed"      # `! ( T )` rewritten to `! T`
     for i in range(n):
         if strs[i] == "(" and "C" in fl[i]:
             # a parenthesis flagged as cast whose content is not a type name list
@@ -701,6 +707,139 @@ def report_fails(res, fails, origin):
                            replay_cmd="./check.py C07 --replay <this file>"), concrete=True, key=f["key"])
 
 
+# ------------------------------------------------------------------------------------------------------------
+# C2 / C3: raw token lists (no other tokenizer pass): prepareTernaryOpForAST and createAst against `prep` / `astOf`
+# ------------------------------------------------------------------------------------------------------------
+RAW_NAMES = ["v1", "v2", "v3", "v4", "v5"]
+
+
+def raw_flags(t):
+    if re.fullmatch(r"v\d+", t):
+        return "NV"
+    if t in ("int", "char", "long", "unsigned", "double"):
+        return "NS" if t != "unsigned" else "NSK"
+    if re.fullmatch(r"[A-Za-z_]\w*", t):
+        return "N"
+    if re.fullmatch(r"\d\w*", t):
+        return "L"
+    return "-"
+
+
+def raw_tok(t):
+    return "%s:%s" % (core.hx(t), raw_flags(t))
+
+
+def rename_raw(toks):
+    m = {"a": "v1", "b": "v2", "c": "v3", "d": "v4", "e": "v5", "p": "v6", "r": "v7", "s": "v8", "q": "v9", "fp": "v10", "x": "v11"}
+    return [m.get(t, "." if t == "->" else t) for t in toks]
+
+
+def balanced_brackets(toks):
+    st = []
+    for t in toks:
+        if t in "([":
+            st.append(t)
+        elif t in ")]":
+            if not st or st.pop() != {")": "(", "]": "["}[t]:
+                return False
+    return not st
+
+
+def mutate(rng, toks):
+    toks = list(toks)
+    for _ in range(rng.choice([1, 1, 2, 3])):
+        k = rng.random()
+        if not toks:
+            break
+        i = rng.randrange(len(toks))
+        if k < 0.35:
+            del toks[i]
+        elif k < 0.7:
+            toks.insert(i, rng.choice(["v1", "v2", "1", "+", "-", "*", "&", "?", ":", ",", "=", "!", "~", "++", "--", ".", "<", "(", ")", "[", "]", "int", "f1"]))
+        else:
+            j = rng.randrange(len(toks))
+            toks[i], toks[j] = toks[j], toks[i]
+    return toks
+
+
+def run_raw(ctx, res, exe, drv, n_prep, n_ast):
+    rng = ctx.rng
+    # ---- C2: prepareTernaryOpForAST ---------------------------------------------------------------------------
+    lists = []
+    while len(lists) < n_prep:
+        t = gen_tree(rng, rng.choice([2, 3, 4, 5]), False, stage2=rng.random() < 0.3)
+        toks = rename_raw(pr(t, 0, rng, rng.choice([0.0, 0.1, 0.3])))
+        toks = [x for x in toks if x not in ("<=>",)]
+        if rng.random() < 0.5:
+            toks = mutate(rng, toks)
+        if not balanced_brackets(toks) or not toks or "?" not in toks:
+            if rng.random() < 0.9:
+                continue
+        if not balanced_brackets(toks) or not toks:
+            continue
+        lists.append(toks + [";"])
+    hops = ["prep %s" % core.hx(" ".join(t)) for t in lists]
+    mops = ["prep %s" % " ".join(raw_tok(x) for x in t) for t in lists]
+    rc, impl, err = core.run_lines(exe, [], hops, timeout=600)
+    rc, model, err = core.run_lines(drv, [], mops, timeout=600)
+    descs = ["prep: " + " ".join(t) for t in lists]
+    core.correspond(ctx, res, "prepareTernaryOpForAST", descs, impl, model,
+                    nontrivial=lambda op, out: out.count("(") > op.count("("))
+    res.count("prep:parenthesised", sum(1 for d, o in zip(descs, impl) if o.count("(") > d.count("(")))
+    # ---- C3: createLinks + prepareTernaryOpForAST + createAst on raw token lists, also malformed, also too deep ----------
+    cases = []
+    for depth_n in (100, 148, 149, 150, 151, 200):
+        cases.append(("c", ["v1"] + ["=", "v1"] * depth_n + [";"]))
+        cases.append(("cpp", ["-"] * depth_n + ["v1", ";"]))
+        cases.append(("c", ["v1", "?"] * (depth_n // 2) + ["v2"] + [":", "v3"] * (depth_n // 2) + [";"]))
+        cases.append(("cpp", ["("] * depth_n + ["v1", "+", "v2"] + [")"] * depth_n + [";"]))
+    while len(cases) < n_ast:
+        lang = rng.choice(["c", "cpp"])
+        t = gen_tree(rng, rng.choice([2, 3, 4]), lang == "cpp", stage2=rng.random() < 0.5)
+        toks = rename_raw(pr(t, 0, rng, rng.choice([0.0, 0.2])))
+        toks = [{"g": "f1", "h": "f2", "g1": "f3", "m": "f4", "n": "f5", "k": "f6"}.get(x, x) for x in toks]
+        if rng.random() < 0.6:
+            toks = mutate(rng, toks)
+        if not toks or not balanced_brackets(toks) or "<" in toks or ">" in toks:
+            continue        # `<` `>` may be linked as template brackets by createLinks2-free createAst: keep them to the pipeline tie
+        cases.append((lang, toks + [";"]))
+    hops = ["ast %s %s" % (l, core.hx(" ".join(t))) for l, t in cases]
+    mops = ["astof %s %s" % (l, " ".join(raw_tok(x) for x in t)) for l, t in cases]
+    rc, impl, err = core.run_lines(exe, [], hops, timeout=900)
+    rc, model, err = core.run_lines(drv, [], mops, timeout=900)
+    if len(impl) != len(cases) or len(model) != len(cases):
+        raise core.CheckBroken("C07 raw tie: %d ops, %d impl lines, %d model lines: %s" % (len(cases), len(impl), len(model), err[-300:]))
+    mism = []
+    for (l, t), o, m in zip(cases, impl, model):
+        desc = "%s: %s" % (l, " ".join(t) if len(t) < 60 else " ".join(t[:20]) + " ... (%d tokens)" % len(t))
+        p = parse_impl(o)
+        if p is None:
+            ic = "err depth" if "maximum AST depth" in o else "err other"
+        else:
+            ic = "ok | " + " ; ".join(p[1])
+        mm = re.match(r"^ok rest=(\d+) \|(.*)$", m)
+        if mm:
+            mc = "ok | " + " ; ".join(x.strip() for x in mm.group(2).split(" ;") if x.strip())
+            complete = mm.group(1) == "1"
+        else:
+            mc, complete = m, True
+        comparable = True
+        if m.startswith("outside"):
+            comparable = False; res.count("raw:" + m.replace(" ", ""))
+        elif mm and not complete:
+            comparable = False; res.count("raw:model-stops-early")       # createAst restarts behind the stop: not modelled
+        elif ic == "err other":
+            comparable = False; res.count("raw:impl-rejects")
+        if ic == "err depth":
+            res.count("raw:depth-exceeded")
+        res.case("rawast|" + desc, comparable and p is not None, dict(tie="createAst-raw", op=desc, impl=ic, model=mc) if len(res.samples) < 10 and rng.random() < 0.01 else None)
+        if comparable and ic != mc:
+            mism.append((desc, ic, mc))
+    res.traces_validated += len(cases) - len(mism)
+    res.oblig("correspondence:createAst-raw", not mism, "correspondence",
+              "" if not mism else "%d of %d cases differ; first: %s impl=[%s] model=[%s]" % (len(mism), len(cases), mism[0][0], mism[0][1], mism[0][2]))
+
+
 def load_corpus():
     p = os.path.join(core.VERIF, "corpus", "C07", "cases.json")
     return json.load(open(p)) if os.path.exists(p) else []
@@ -729,7 +868,7 @@ def run(ctx, res):
         res.extra["corpus_cases"] = len(ccases)
 
     # ---- C1 + P_impl: random trees ----------------------------------------------------------------------------------
-    n1 = 4000 if thorough else 700
+    n1 = 30000 if thorough else 4000
     cases = []
     for i in range(n1):
         lang = "cpp" if i % 2 else "c"
@@ -743,6 +882,9 @@ def run(ctx, res):
         res.count("parens:%s" % ("minimal" if extra == 0 else "redundant"))
     fails = run_cases(ctx, res, exe, drv, cases, "pipeline")
     report_fails(res, fails, "generated")
+
+    # ---- C2 / C3 --------------------------------------------------------------------------------------------------------
+    run_raw(ctx, res, exe, drv, 3000 if thorough else 600, 6000 if thorough else 1200)
 
 
 def replay(ctx, res, rp):
